@@ -150,6 +150,7 @@ type FS struct {
 
 	DelayAfterFault time.Duration // see vfile.WriteAt
 	lastFault       time.Time
+	delays          int
 	Perturb    func() // optional schedule perturbation before persister-side operations
 
 	Creates    int
@@ -395,7 +396,13 @@ func (v *vfile) WriteAt(p []byte, off int64) (int, error) {
 		recent := !v.fs.lastFault.IsZero() && time.Since(v.fs.lastFault) < v.fs.DelayAfterFault
 		v.fs.mu.Unlock()
 		if recent && !v.fs.inHarness() {
-			time.Sleep(v.fs.DelayAfterFault)
+			v.fs.mu.Lock()
+			v.fs.delays++
+			ok := v.fs.delays <= 6
+			v.fs.mu.Unlock()
+			if ok {
+				time.Sleep(v.fs.DelayAfterFault)
+			}
 		}
 	}
 	if f != nil {
